@@ -59,7 +59,8 @@ RULE = ('snapshot: 1-7 generated locals (ints incl. > 64 bit, floats incl. nan/i
         '0-2 caller frames, time stamp 0 / 1 / now / 2^64-1, log message unset / empty / text, 0-3 attributes) after one '
         'of {1-5 unknown fields of wire type 0/1/2/5 with field numbers up to 2^29-1, records reordered, an earlier '
         'occurrence of a singular scalar, padded varints, truncation at a random byte, invalid UTF-8 appended}. '
-        'Non-trivial snapshot = at least 5 table entries and (a failing '
+        'scale: 0-70000 table entries x 1-9000-character values (2 cases past 4 MiB / 2^16 entries in the corpus, 2 more per '
+        'quick run), numeric fields drawn from the uint32 / uint64 / int64 boundaries. Non-trivial snapshot = at least 5 table entries and (a failing '
         'watch or a truncated value or a tuple attribute or non-BMP text). Known-finding instances only in the '
         'labelled streams. Distinct = distinct canonical JSON of the case.')
 TRUSTED = ['protobuf runtime: a str field accepts exactly text without surrogates, int fields their range; the RECEIVING '
@@ -1181,7 +1182,10 @@ def scale_snapshot(case):
                          transpiled_line_number=nums['tline'], transpiled_column_number=nums['tcol'])]
     s = EventSnapshot(TracePointConfig('tp-scale', 'big.py', nums['tp_line'], {'fire_count': '1'}, [], []), nums['ts'],
                       Resource({'service.name': 'svc', 'n': nums['attr_int']}), frames, lookup)
-    s.add_watch_result(WatchResult('WATCH', 'v1', VariableId('1', 'v1')))
+    if n >= 1:
+        s.add_watch_result(WatchResult('WATCH', 'v1', VariableId('1', 'v1')))
+    else:
+        s.add_watch_result(WatchResult('WATCH', 'v1', None, 'NameError: v1'))
     s.attributes['big'] = nums['attr_int']
     s.complete()
     s._duration_nanos = nums['duration']          # (complete() reads the clock; the boundary value is set directly)
@@ -2042,7 +2046,14 @@ def gen(rng, tier):
             kind = rng.choice(['snapshot', 'snapshot', 'value', 'auth'])
             yield {'snapshot': gen_snapshot, 'value': gen_value, 'auth': gen_auth}[kind](rng, stream)
             continue
-XX, 'stream': 'main', 'how': rng.choice(['method', 'line']),
+        if k % 600 == 300:
+            yield gen_scale(rng, rng.choice(['bytes', 'bytes', 'entries']))   # 2 per quick run, ~40 in thorough
+            continue
+        if 0.975 < r <= 0.985:
+            yield gen_scale(rng, 'small')
+            continue
+        if r > 0.985:
+            yield {'kind': 'tpline', 'stream': 'main', 'how': rng.choice(['method', 'line']),
                    'line': rng.choice([0, 1, 40, 2 ** 31, 2 ** 32 - 1, rng.randint(1, 5000)])}
             continue
         c = gen_snapshot(rng) if r < 0.58 else gen_uploads(rng) if r < 0.61 else gen_wirebytes(rng) if r < 0.68 \
@@ -2182,7 +2193,7 @@ def label(case, obs):
     pre = f'{k}/' + ('' if s in ('main', 'bad-credentials') else 'seq-none/' if s == 'seq-none' else f'KNOWN:{s}/')
     if k == 'scale':
         return pre + ('not-sent' if not obs.get('arrived') else
-                      '>4MiB' if obs['bytes'] > 4 * 1024 * 1024 else '>2^16-entries' if obs['entries'] > 2 ** 16 else 'boundaries')
+                      '>2^16-entries' if obs['entries'] > 2 ** 16 else '>4MiB' if obs['bytes'] > 4 * 1024 * 1024 else 'boundaries')
     if k == 'tpline':
         return pre + case['how'] + ('/not-built' if not obs.get('built') else '')
     if k == 'wirebytes':
@@ -2212,6 +2223,8 @@ def nontrivial(case, obs):
     k = case['kind']
     if case.get('stream', 'main') not in ('main', 'seq-none', 'bad-credentials'):
         return False
+    if k == 'scale':
+        return bool(obs.get('arrived'))
     if k == 'tpline':
         return bool(obs.get('built')) and case['how'] == 'method'
     if k == 'wirebytes':
